@@ -7,10 +7,22 @@ F = "solvor/utils/data_structures.py"
 REG.cls(F, "UnionFind", fields={"_parent": "list[int]", "_rank": "list[int]", "_count": "int"},
         ghost={"rep": "map[int,int]", "pot": "map[int,int]"})
 
+# number of roots among the first k elements (recursive spec function) and its point-update lemma
+REG.recfn("nroots", [("P", "map[int,int]"), ("k", "int")], "int", on="k", base="0",
+          step="nroots(P, k - 1) + (1 if P[k - 1] == k - 1 else 0)", group="uf")
+REG.lemma("nroots_store", ["P", "i", "v", "k"],
+          "implies(i >= 0, nroots(store(P, i, v), k) == nroots(P, k) - (1 if (i < k and P[i] == i) else 0) + (1 if (i < k and v == i) else 0))",
+          kind="induction", on="k", group="uf", var_sorts={"P": "map[int,int]"},
+          trig=["nroots(store(P, i, v), k)"])
+REG.lemma("nroots_id", ["P", "k"], "implies(forall(j, implies(0 <= j < k, P[j] == j)), nroots(P, k) == k)",
+          kind="induction", on="k", group="uf", var_sorts={"P": "map[int,int]"}, trig=["nroots(P, k)"])
+
 # representation invariant; `rep` is the ghost representative map (the abstract view is the partition
 # {j ~ k  iff  rep[j] == rep[k]}).  Triggers are restricted to _parent[j] / rep[j] (DESIGN 1.3).
 REG.define("uf_inv", ["self"], [
     "len(self._rank) == len(self._parent)",
+    # _count is the number of roots, i.e. of classes (each class has exactly one root: its representative)
+    "self._count == nroots(arr(self._parent), len(self._parent))",
     "forall(j, implies(0 <= j < len(self._parent), 0 <= self._parent[j] < len(self._parent)), trig=self._parent[j])",
     "forall(j, implies(0 <= j < len(self._parent), 0 <= self.rep[j] < len(self._parent)), trig=self.rep[j])",
     "forall(j, implies(0 <= j < len(self._parent), self._parent[self.rep[j]] == self.rep[j]), trig=self.rep[j])",
@@ -22,14 +34,14 @@ REG.define("uf_inv", ["self"], [
     "forall(j, implies(0 <= j < len(self._parent) and self._parent[j] != j, self.pot[self._parent[j]] < self.pot[j]), trig=self._parent[j])",
 ])
 
-REG.fn(F, "UnionFind.__init__", prop="C20",
+REG.fn(F, "UnionFind.__init__", prop="C20", lemmas=["uf"],
        requires=["n >= 0"],
        ensures=["uf_inv(self)", "len(self._parent) == n", "self._count == n",
                 "forall(j, self.rep[j] == j)"],
        modifies=["self._parent", "self._rank", "self._count", "self.rep", "self.pot"],
        ghost_return={"self.rep": "lam(j, j)", "self.pot": "lam(j, 0)"})
 
-REG.fn(F, "UnionFind.find", prop="C20",
+REG.fn(F, "UnionFind.find", prop="C20", lemmas=["uf"],
        requires=["0 <= x < len(self._parent)", "uf_inv(self)"],
        ensures=["result == self.rep[x]", "uf_inv(self)", "self.pot[result] <= self.pot[x]",
                 "len(self._parent) == old(len(self._parent))",
@@ -37,7 +49,7 @@ REG.fn(F, "UnionFind.find", prop="C20",
        modifies=["self._parent"],
        decreases="self.pot[x]")
 
-REG.fn(F, "UnionFind.union", prop="C20",
+REG.fn(F, "UnionFind.union", prop="C20", lemmas=["uf"],
        requires=["0 <= x < len(self._parent)", "0 <= y < len(self._parent)", "uf_inv(self)"],
        ensures=["result == (old(self.rep[x]) != old(self.rep[y]))",
                 "uf_inv(self)",
@@ -50,16 +62,17 @@ REG.fn(F, "UnionFind.union", prop="C20",
        ghost_return={"self.rep": "lam(j, rx if old(self.rep)[j] == ry else old(self.rep)[j])",
                      "self.pot": "lam(j, (old(self.pot)[j] + old(self.pot)[rx] + 1) if (old(self.rep)[j] == ry and rx != ry) else old(self.pot)[j])"})
 
-REG.fn(F, "UnionFind.connected", prop="C20",
+REG.fn(F, "UnionFind.connected", prop="C20", lemmas=["uf"],
        requires=["0 <= x < len(self._parent)", "0 <= y < len(self._parent)", "uf_inv(self)"],
        ensures=["result == (self.rep[x] == self.rep[y])", "uf_inv(self)",
                 "len(self._parent) == old(len(self._parent))"],
        modifies=["self._parent"])
 
-REG.fn(F, "UnionFind.component_count", prop="C20",
-       requires=["uf_inv(self)"], ensures=["result == self._count"])
+REG.fn(F, "UnionFind.component_count", prop="C20", lemmas=["uf"],
+       requires=["uf_inv(self)"],
+       ensures=["result == self._count", "result == nroots(arr(self._parent), len(self._parent))"])
 
-REG.fn(F, "UnionFind.__len__", prop="C20",
+REG.fn(F, "UnionFind.__len__", prop="C20", lemmas=["uf"],
        requires=["uf_inv(self)"], ensures=["result == len(self._parent)"])
 
 # ------------------------------------------------------------------ FenwickTree
